@@ -680,6 +680,45 @@ theorem c04_cli_session_bounded (d : Deployment) (now : Clock) (u : Str) (tok : 
     rw [gInt_emitAuth_exp _ (by simp only [inI64, Bool.and_eq_true, decide_eq_true_eq]; omega)]
     exact hr.2
 
+/-! ### round 3: the loader-built deployment, lookups as a sequence -/
+
+/-- **Configuration trust.** In a deployment whose trusted keys are what the loader makes of the
+configuration — the listed peer keys, the optional Ed25519 signer, the signer — an artefact signed by
+any other key that exists around the configuration (a client CA of `client_ca_filename`, the TLS key, …)
+and is not itself listed is rejected by every consumer, whatever it claims. -/
+theorem c04_config_trust (kc : KeyConfig) (x : Ctx) (hx : x.dep.trusted = kc.trusted) (c : Consumer) (a : Artefact)
+    (k : Key) (_hk : k ∈ kc.clientCAs ++ kc.others) (hs : a.signedBy = some k.id)
+    (hn : ∀ t ∈ kc.trusted, t.id ≠ k.id) : accepts c x a = false := by
+  apply c04_key_foreign
+  intro t ht
+  rw [hx] at ht
+  rw [hs]
+  intro e
+  injection e with e
+  exact hn t ht e.symm
+
+/-- **Lookup sequences.** Whatever the history of earlier lookups (served by the primary or by the
+local copy), every lookup of a sequence that returns data does so for a record that is, at the time of
+*that* lookup, signed by the deployment, a storage record, inside its signed window, naming this
+server, and bound to the user and type asked for. -/
+theorem c04_storage_sequence (d : Deployment) (hd : d.issuer ≠ []) (l : List Lookup) (i : Nat) (s : Lookup)
+    (hs : l[i]? = some s) (h0 : 0 ≤ s.now.sec) (data : Str) (hr : (lookups d l)[i]? = some (.ok data)) :
+    ∃ r, s.row = some r ∧
+      honourable .storage { dep := d, now := s.now, lookupUser := s.user, lookupType := s.ty,
+                            colUser := r.user, colType := r.ty, colExp := r.expCol } r.jws = true := by
+  simp only [lookups, List.getElem?_map, hs, Option.map_some, Option.some.injEq] at hr
+  cases hrow : s.row with
+  | none => rw [hrow] at hr; simp [acceptStorage] at hr
+  | some r =>
+    refine ⟨r, rfl, ?_⟩
+    apply c04_sound
+    · exact ⟨hd, h0⟩
+    · simp only [accepts]
+      rw [hrow] at hr
+      have : ({ user := r.user, ty := r.ty, expCol := r.expCol, jws := r.jws } : Row) = r := rfl
+      rw [this, hr]
+      rfl
+
 /-! ### the tree as found -/
 
 def cxDep : Deployment := { issuer := "https://km".toList, trusted := [⟨1, .rsa⟩] }
